@@ -36,6 +36,7 @@ COMMON_ASSUMPTIONS = ["A1", "A6", "A7"]
 
 _TB = ["z3 SMT solver (cvc5 for string queries z3 leaves open)", "pyvc VC generator (/verif/pyvc)", "CPython ast module"]
 PROPERTIES = {
+    "C12": {"level": "proof", "trusted_base": _TB, "assumptions": ["EV", "LMDB", "SQL"]},
     "C10": {"level": "proof", "trusted_base": _TB, "assumptions": ["EV", "LMDB"]},
     "C17": {"level": "proof", "trusted_base": _TB, "assumptions": ["A3", "GCSQL", "SQL"]},
     "C20": {"level": "proof", "trusted_base": _TB, "assumptions": ["TCP", "A4", "EV"]},
